@@ -413,3 +413,40 @@ PROPS["C29"]["functions"] += ["radix_common::time::Instant::{add_days, add_hours
                               "contract the other two jobs decide)"]
 PROPS["C29"]["outside"] = PROPS["C29"]["outside"].replace(
     "add_days/hours/minutes/seconds (compositions of the two conversions with Instant::add_*); ", "")
+
+
+PROPS["C27"] = dict(
+    title="Decimal text parsing and printing are exact inverses",
+    functions=["<radix_common::math::Decimal as FromStr>::from_str", "<radix_common::math::PreciseDecimal as FromStr>::"
+               "from_str", "<I192 / I256 as FromStr>::from_str (repo wrapper around bnum's parser)",
+               "I192/I256 checked_mul / checked_add / checked_sub / pow / is_negative wrappers"],
+    bounds="every ASCII string (each byte 0..=127 symbolic) of length 0..=5 (Decimal, quick; 0..=7 thorough) and "
+           "0..=4 (PreciseDecimal, quick; 0..=6 thorough); the split on '.' forks on every placement of the dots",
+    outside="longer strings (hence range overflow and more than 7 digits), non-ASCII text, Display and therefore the "
+            "print -> parse round trip (core::fmt is not modelled)",
+    assumptions=["bnum's BInt::from_str_radix(_, 10) as in the library model (read from bnum 0.11 src/bint/radix.rs; "
+                 "validated on every run by the self-test strings against the native function): optional leading '+' "
+                 "or '-', then only digits; empty -> Empty, lone sign -> InvalidDigit",
+                 "str::split / collect / len / starts_with / Vec index as in the string model (concrete length, symbolic "
+                 "bytes)"],
+    trusted_base=MIR_TB,
+    mir=True,
+)
+
+
+PROPS["C13"]["functions"].append(
+    "radix_engine::kernel::substate_locks::SubstateLocks::{lock, unlock, new_lock_handle} and the SubstateLockState "
+    "methods they call (MIR->SMT, maps as bounded symbolic slot arrays)")
+PROPS["C13"]["bounds"] += ("; Engine M: ONE lock / unlock step from an arbitrary SubstateLocks state with <= 3 open "
+                           "handles, <= 3 substate lock-state entries and <= 2 node counters (all keys, ids and counts "
+                           "symbolic) that satisfies the representation invariant; the invariant is re-established, "
+                           "so histories of any length within those capacities are covered")
+PROPS["C13"]["outside"] = ("states with more simultaneously open handles / tracked substates / nodes than the slot "
+                           "capacities; the iteration order of the handle table (swap_remove); is_locked / "
+                           "node_is_locked / get are read only through the invariant they observe; the kernel code "
+                           "that calls SubstateLocks (substate_io.rs)")
+PROPS["C13"]["assumptions"] += ["hash / index maps behave as dictionaries (library model: bounded slot arrays with "
+                                "distinct present keys; entry().or_insert, get, get_mut, insert, swap_remove)",
+                                "NodeId / SubstateKey are used only through Copy/Clone and equality (opaque values)"]
+PROPS["C13"]["trusted_base"] = KANI_TB + MIR_TB
+PROPS["C13"]["mir"] = True
